@@ -16,7 +16,7 @@ Record scase := mk_scase {
 Definition pc_label (p : pc) : nat :=
   match p with
   | S_load _ _ => 1 | S_alive _ _ _ => 2 | S_push _ _ _ => 3 | S_link _ _ _ => 4 | S_cas _ _ => 5 | S_spawn _ _ => 6
-  | R_start => 7 | R_next => 8 | R_state => 9 | R_pop _ => 10 | R_cb _ _ => 11 | R_w1 _ _ => 12 | R_w2 _ _ => 13
+  | R_start => 7 | R_next => 8 | R_state => 9 | R_pop _ => 10 | R_cb _ _ => 11 | R_call _ _ => 36 | R_w1 _ _ => 12 | R_w2 _ _ => 13
   | R_w3 _ _ => 14 | R_sleep => 15 | R_item _ => 16 | R_wake => 17 | R_swapT _ => 18 | R_unreg _ => 19
   | R_unreg2 _ => 20 | R_term0 _ => 21 | R_term _ => 22 | R_exit => 23
   | K_load => 24 | K_swapZ => 25 | K_storeT => 26 | K_swapT => 27 | K_unreg => 28 | K_unreg2 => 20 | K_spawn => 29
